@@ -32,7 +32,8 @@ ASSUMPTIONS = ["SimNet pipes behave like reliable ordered TCP streams; segments 
                "destination equality is asserted for ASCII domain names, IPv4 and IPv6; non-ASCII domain octets only take part in the "
                "segmentation-independence comparison"]
 EXPECTED_PROBES = ["accept", "reject_greeting", "reject_auth", "reject_request", "incomplete", "connect_failed", "lazy", "eager",
-                   "payload_in_handshake_segment", "cut_inside_request", "ipv6", "domain", "ipv4", "http_payload", "lenient"]
+                   "payload_in_handshake_segment", "cut_inside_request", "ipv6", "domain", "ipv4", "http_payload", "lenient",
+                   "unresolvable_name"]
 
 S = lambda b: bytes(b).decode("latin1")  # noqa: E731
 B = lambda s: s.encode("latin1")  # noqa: E731
@@ -304,7 +305,15 @@ def run(sc):
 
         def planner(host, port, n, proto):
             cp = sc.get("connect", {})
-            state["attempts"].append((host, port, proto, cp.get("error") or "ok"))
+            res = cp.get("error") or "ok"
+            if proto == "tcp" and isinstance(host, str):
+                try:
+                    host.encode("idna")
+                except UnicodeError:
+                    # getaddrinfo() cannot IDNA-encode this name (empty / over-long label, U+FFFD from a non-ASCII
+                    # octet): SimNet raises UnicodeError for it as the real loop does - a failed connect
+                    res = "unresolvable"
+            state["attempts"].append((host, port, proto, res))
             if cp.get("error"):
                 return ConnectPlan(delay=cp.get("delay", 0.0), error=oserror(cp["error"]))
 
@@ -396,6 +405,9 @@ def check_one(sc, d, o, v, probes, tag):
     strategy = opts.get("connection_strategy", "eager")
     kind = sc.get("kind", "tcp")
     cerr = sc.get("connect", {}).get("error")
+    if any(res == "unresolvable" for _, _, _, res in o["attempts"]):
+        cerr = cerr or "unresolvable"
+        probes["unresolvable_name"] = probes.get("unresolvable_name", 0) + 1
     rx = o["rx"]
 
     def bad(cls, key, msg):
